@@ -17,13 +17,14 @@ class _SkiaPen(BasePen):
 PF=ot.PaintFormat
 class ColrPicture:
     def __init__(self, font, foreground=(0.2,0.9,0.4,1.0)):
-        self.font=font; self.gs=font.getGlyphSet(); self._paths={}
+        self.font=font; self._gs=None; self._paths={}
         self.fg=foreground
         self.colr=font["COLR"]
         self.pal=[(c.red/255,c.green/255,c.blue/255,c.alpha/255) for c in font["CPAL"].palettes[0]]
     def outline(self,name):
         if name not in self._paths:
-            pen=_SkiaPen(self.gs); self.gs[name].draw(pen); self._paths[name]=pen.path
+            if self._gs is None: self._gs=self.font.getGlyphSet()
+            pen=_SkiaPen(self._gs); self._gs[name].draw(pen); self._paths[name]=pen.path
         return self._paths[name]
     def color(self,idx,alpha):
         r,g,b,a=self.fg if idx==0xFFFF else self.pal[idx]
